@@ -87,7 +87,7 @@ def c_recv(x):
     vs = []
     wordv = None
     for v in x["variants"]:
-        if v["word"] and wordv is None:
+        if v["word"] and not v["skip"] and wordv is None:        # a skipped variant is never produced, not even as the word variant
             wordv = v["ident"]
         style = {"unit": "VsUnit", "newtype": "VsNewtype", "struct": "VsStruct"}[v["style"]]
         vi = "(mkVI %s %s %s %s %s)" % (cstr(v["ident"]), cstr(v["name"]), cbool(v["skip"]), style, cbool(x["cinfo"]["auk"]))
